@@ -50,7 +50,19 @@ pub struct Cfg {
     /// client has to treat like an absent member
     #[serde(default)]
     pub rk_json: u8,
+    /// relying party of the client ceremonies: 0 the usual one; k > 0 the k-th of the RP IDs that the library's own sources
+    /// mention by name (a dictionary, as a fuzzer would use one)
+    #[serde(default)]
+    pub named_rp: u8,
 }
+
+/// RP IDs that occur literally in the repository's sources (quirks table, tests, documentation)
+const NAMED_RPS: [crate::ceremony::Site; 4] = [
+    crate::ceremony::Site { url: Some("https://www.adobe.com"), android_host: None, rp: Some("adobe.com"), effective: "adobe.com" },
+    crate::ceremony::Site { url: Some("https://hyatt.com"), android_host: None, rp: None, effective: "hyatt.com" },
+    crate::ceremony::Site { url: Some("https://future.1password.com"), android_host: None, rp: Some("future.1password.com"), effective: "future.1password.com" },
+    crate::ceremony::Site { url: Some("https://accounts.hyatt.com"), android_host: None, rp: Some("hyatt.com"), effective: "hyatt.com" },
+];
 
 const UNKNOWN_RK: [&str; 4] = ["mandatory", "Required", "", "discoverable"];
 
@@ -149,7 +161,10 @@ fn check_with<S: passkey_authenticator::CredentialStore<PasskeyItem = passkey_ty
         ctx.class("after an earlier resident registration under another capability");
     }
     let supports_rk = c.cap != Disc::OnlyNonDiscoverable;
-    let site = &SITES[0];
+    let site = if c.named_rp == 0 { &SITES[0] } else { &NAMED_RPS[(c.named_rp as usize - 1) % NAMED_RPS.len()] };
+    if c.named_rp != 0 {
+        ctx.class("relying party named in the library's sources");
+    }
     let handle: Vec<u8> = if c.user_len == 0 { b"c11-user-handle".to_vec() } else { (0..c.user_len).map(|i| b'a' + i % 26).collect() };
     if c.user_len != 0 {
         ctx.class(&format!("user id of {} bytes", c.user_len));
@@ -241,6 +256,14 @@ fn check_with<S: passkey_authenticator::CredentialStore<PasskeyItem = passkey_ty
                 } else if let Some(p) = cp {
                     if p.discoverable.is_some_and(|v| v != discoverable) {
                         return Err("unrequested credProps output contradicts the stored credential".into());
+                    }
+                }
+                // what the relying party receives is the serialised credential: the requested output is in there as well
+                if cred_props == 2 {
+                    let wire = serde_json::to_value(&cred).map_err(|e| format!("the created credential does not serialise: {e}"))?;
+                    let rk = wire.get("clientExtensionResults").and_then(|x| x.get("credProps")).and_then(|x| x.get("rk")).and_then(|x| x.as_bool());
+                    if rk != Some(discoverable) {
+                        return Err(format!("the serialised credential carries credProps.rk = {rk:?} (clientExtensionResults = {}), the stored credential is discoverable = {discoverable}", wire.get("clientExtensionResults").map(|v| v.to_string()).unwrap_or_default()));
                     }
                 }
                 // now assertions (several: the stored record is rewritten by the counter update in between)
@@ -348,73 +371,80 @@ pub fn all_configs() -> Vec<Cfg> {
             for require in [false, true] {
                 for cp in 0..3u8 {
                     for prf in [false, true] {
-                        v.push(Cfg { cap, client: Some((rkreq, require, cp, true)), ctap_rk: None, prf, cap_after_prompt: None, wrap: 0, uv_cap: 0, contended: false, prior: None, user_len: 0, rk_json: 0 });
+                        v.push(Cfg { cap, client: Some((rkreq, require, cp, true)), ctap_rk: None, prf, cap_after_prompt: None, wrap: 0, uv_cap: 0, contended: false, prior: None, user_len: 0, rk_json: 0, named_rp: 0 });
                     }
                 }
             }
         }
         // no authenticatorSelection at all
         for cp in 0..3u8 {
-            v.push(Cfg { cap, client: Some((0, false, cp, false)), ctap_rk: None, prf: false, cap_after_prompt: None, wrap: 0, uv_cap: 0, contended: false, prior: None, user_len: 0, rk_json: 0 });
-            v.push(Cfg { cap, client: Some((0, false, cp, false)), ctap_rk: None, prf: true, cap_after_prompt: None, wrap: 0, uv_cap: 0, contended: false, prior: None, user_len: 0, rk_json: 0 });
+            v.push(Cfg { cap, client: Some((0, false, cp, false)), ctap_rk: None, prf: false, cap_after_prompt: None, wrap: 0, uv_cap: 0, contended: false, prior: None, user_len: 0, rk_json: 0, named_rp: 0 });
+            v.push(Cfg { cap, client: Some((0, false, cp, false)), ctap_rk: None, prf: true, cap_after_prompt: None, wrap: 0, uv_cap: 0, contended: false, prior: None, user_len: 0, rk_json: 0, named_rp: 0 });
         }
         for rk in [false, true] {
-            v.push(Cfg { cap, client: None, ctap_rk: Some(rk), prf: false, cap_after_prompt: None, wrap: 0, uv_cap: 0, contended: false, prior: None, user_len: 0, rk_json: 0 });
+            v.push(Cfg { cap, client: None, ctap_rk: Some(rk), prf: false, cap_after_prompt: None, wrap: 0, uv_cap: 0, contended: false, prior: None, user_len: 0, rk_json: 0, named_rp: 0 });
         }
         // the store handed over inside each lock wrapper, and authenticators whose user verification is not configured / absent
         for rkreq in 0..4u8 {
             for require in [false, true] {
                 for wrap in 1..5u8 {
-                    v.push(Cfg { cap, client: Some((rkreq, require, 2, true)), ctap_rk: None, prf: false, cap_after_prompt: None, wrap, uv_cap: 0, contended: false, prior: None, user_len: 0, rk_json: 0 });
+                    v.push(Cfg { cap, client: Some((rkreq, require, 2, true)), ctap_rk: None, prf: false, cap_after_prompt: None, wrap, uv_cap: 0, contended: false, prior: None, user_len: 0, rk_json: 0, named_rp: 0 });
                 }
                 for uv_cap in 1..3u8 {
-                    v.push(Cfg { cap, client: Some((rkreq, require, 2, true)), ctap_rk: None, prf: false, cap_after_prompt: None, wrap: 0, uv_cap, contended: false, prior: None, user_len: 0, rk_json: 0 });
+                    v.push(Cfg { cap, client: Some((rkreq, require, 2, true)), ctap_rk: None, prf: false, cap_after_prompt: None, wrap: 0, uv_cap, contended: false, prior: None, user_len: 0, rk_json: 0, named_rp: 0 });
                 }
             }
         }
         for rk in [false, true] {
             for wrap in 1..5u8 {
-                v.push(Cfg { cap, client: None, ctap_rk: Some(rk), prf: false, cap_after_prompt: None, wrap, uv_cap: 0, contended: false, prior: None, user_len: 0, rk_json: 0 });
+                v.push(Cfg { cap, client: None, ctap_rk: Some(rk), prf: false, cap_after_prompt: None, wrap, uv_cap: 0, contended: false, prior: None, user_len: 0, rk_json: 0, named_rp: 0 });
             }
             for uv_cap in 1..3u8 {
-                v.push(Cfg { cap, client: None, ctap_rk: Some(rk), prf: false, cap_after_prompt: None, wrap: 0, uv_cap, contended: false, prior: None, user_len: 0, rk_json: 0 });
+                v.push(Cfg { cap, client: None, ctap_rk: Some(rk), prf: false, cap_after_prompt: None, wrap: 0, uv_cap, contended: false, prior: None, user_len: 0, rk_json: 0, named_rp: 0 });
             }
         }
         // the judged registration follows an earlier resident registration made while the store had another capability
         for prior in Disc::ALL.into_iter().filter(|p| *p != cap && *p != Disc::OnlyNonDiscoverable) {
             for rkreq in 0..4u8 {
                 for require in [false, true] {
-                    v.push(Cfg { cap, client: Some((rkreq, require, 2, true)), ctap_rk: None, prf: false, cap_after_prompt: None, wrap: 0, uv_cap: 0, contended: false, prior: Some(prior), user_len: 0, rk_json: 0 });
+                    v.push(Cfg { cap, client: Some((rkreq, require, 2, true)), ctap_rk: None, prf: false, cap_after_prompt: None, wrap: 0, uv_cap: 0, contended: false, prior: Some(prior), user_len: 0, rk_json: 0, named_rp: 0 });
                 }
             }
             for rk in [false, true] {
-                v.push(Cfg { cap, client: None, ctap_rk: Some(rk), prf: false, cap_after_prompt: None, wrap: 0, uv_cap: 0, contended: false, prior: Some(prior), user_len: 0, rk_json: 0 });
+                v.push(Cfg { cap, client: None, ctap_rk: Some(rk), prf: false, cap_after_prompt: None, wrap: 0, uv_cap: 0, contended: false, prior: Some(prior), user_len: 0, rk_json: 0, named_rp: 0 });
             }
         }
         // registrations through the Arc wrappers while another task holds the store lock
         for wrap in [3u8, 4] {
             for rkreq in 0..4u8 {
                 for require in [false, true] {
-                    v.push(Cfg { cap, client: Some((rkreq, require, 2, true)), ctap_rk: None, prf: false, cap_after_prompt: None, wrap, uv_cap: 0, contended: true, prior: None, user_len: 0, rk_json: 0 });
+                    v.push(Cfg { cap, client: Some((rkreq, require, 2, true)), ctap_rk: None, prf: false, cap_after_prompt: None, wrap, uv_cap: 0, contended: true, prior: None, user_len: 0, rk_json: 0, named_rp: 0 });
                 }
             }
             for rk in [false, true] {
-                v.push(Cfg { cap, client: None, ctap_rk: Some(rk), prf: false, cap_after_prompt: None, wrap, uv_cap: 0, contended: true, prior: None, user_len: 0, rk_json: 0 });
+                v.push(Cfg { cap, client: None, ctap_rk: Some(rk), prf: false, cap_after_prompt: None, wrap, uv_cap: 0, contended: true, prior: None, user_len: 0, rk_json: 0, named_rp: 0 });
             }
         }
         // user ids of every boundary length WebAuthn allows, and options that travel as JSON with an unknown residentKey string
         for user_len in [1u8, 2, 16, 32, 63, 64] {
             for (rkreq, require) in [(0u8, false), (0, true), (2, false), (3, true)] {
-                v.push(Cfg { cap, client: Some((rkreq, require, 2, true)), ctap_rk: None, prf: false, cap_after_prompt: None, wrap: 0, uv_cap: 0, contended: false, prior: None, user_len, rk_json: 0 });
+                v.push(Cfg { cap, client: Some((rkreq, require, 2, true)), ctap_rk: None, prf: false, cap_after_prompt: None, wrap: 0, uv_cap: 0, contended: false, prior: None, user_len, rk_json: 0, named_rp: 0 });
             }
             for rk in [false, true] {
-                v.push(Cfg { cap, client: None, ctap_rk: Some(rk), prf: false, cap_after_prompt: None, wrap: 0, uv_cap: 0, contended: false, prior: None, user_len, rk_json: 0 });
+                v.push(Cfg { cap, client: None, ctap_rk: Some(rk), prf: false, cap_after_prompt: None, wrap: 0, uv_cap: 0, contended: false, prior: None, user_len, rk_json: 0, named_rp: 0 });
+            }
+        }
+        for named_rp in 1..5u8 {
+            for (rkreq, require) in [(0u8, false), (3, true), (1, false)] {
+                for cp in [0u8, 2] {
+                    v.push(Cfg { cap, client: Some((rkreq, require, cp, true)), ctap_rk: None, prf: false, cap_after_prompt: None, wrap: 0, uv_cap: 0, contended: false, prior: None, user_len: 0, rk_json: 0, named_rp });
+                }
             }
         }
         for rk_json in 1..5u8 {
             for require in [false, true] {
                 for cp in [0u8, 2] {
-                    v.push(Cfg { cap, client: Some((0, require, cp, true)), ctap_rk: None, prf: false, cap_after_prompt: None, wrap: 0, uv_cap: 0, contended: false, prior: None, user_len: 0, rk_json });
+                    v.push(Cfg { cap, client: Some((0, require, cp, true)), ctap_rk: None, prf: false, cap_after_prompt: None, wrap: 0, uv_cap: 0, contended: false, prior: None, user_len: 0, rk_json, named_rp: 0 });
                 }
             }
         }
@@ -422,7 +452,7 @@ pub fn all_configs() -> Vec<Cfg> {
         for new_cap in Disc::ALL.into_iter().filter(|n| *n != cap) {
             for rkreq in 0..4u8 {
                 for require in [false, true] {
-                    v.push(Cfg { cap, client: Some((rkreq, require, 2, true)), ctap_rk: None, prf: false, cap_after_prompt: Some(new_cap), wrap: 0, uv_cap: 0, contended: false, prior: None, user_len: 0, rk_json: 0 });
+                    v.push(Cfg { cap, client: Some((rkreq, require, 2, true)), ctap_rk: None, prf: false, cap_after_prompt: Some(new_cap), wrap: 0, uv_cap: 0, contended: false, prior: None, user_len: 0, rk_json: 0, named_rp: 0 });
                 }
             }
         }
